@@ -37,6 +37,7 @@ static uint32_t ndecisions_total;
 static const uint8_t *replay;
 static uint32_t replay_len;
 static uint64_t lclock;
+static const void *last_addr;
 static uint32_t pct_change[8];
 static int pct_nchange;
 static int pct_low;
@@ -66,6 +67,7 @@ static int choose_next(int site)
         /* deadlock: every unfinished thread waits for something that cannot
          * happen any more; let them unwind */
         res->deadlock = true;
+        if (vh_opts.verbose > 2) { fprintf(stderr, "sched: DEADLOCK at step %u:", ndecisions_total); for (int i = 0; i < nthreads; i++) fprintf(stderr, " T%d=%d", i, T[i].state); fprintf(stderr, "\n"); }
         aborted = true;
         for (int i = 0; i < nthreads; i++)
             if (T[i].state == ST_BLOCKED) { T[i].state = ST_RUNNABLE; runnable[nr++] = i; }
@@ -101,7 +103,7 @@ static int choose_next(int site)
             break;
     }
     if (step < SCHED_MAX_DECISIONS) decisions[step] = (uint8_t)pick;
-    if (vh_opts.verbose > 2) fprintf(stderr, "sched: step %u site %d cur T%d -> T%d\n", step, site, current, pick);
+    if (vh_opts.verbose > 2) fprintf(stderr, "sched: step %u site %d addr %p cur T%d -> T%d\n", step, site, last_addr, current, pick);
     ndecisions_total++;
     res->decisions++;
     res->hash = (res->hash ^ (uint64_t)(pick + 1)) * 0x100000001b3ULL;
@@ -145,7 +147,7 @@ void sched_spin_guard(uint64_t limit, void (*cb)(void))
 
 static void hook(int site, const void *addr)
 {
-    (void)addr;
+    last_addr = addr;
     if (self_idx < 0) {
         /* sequential phase of the harness: bound the number of atomic
          * operations so that a corrupted structure is a verdict, not a hang */
